@@ -337,6 +337,31 @@ func runC05(c C05Case, cs *kit.CaseStats) error {
 				if base != tip {
 					cs.Class("pool-accepted-with-stale-basis")
 				}
+				// accepted means all of it: every member that is not already on
+				// the best chain is in the pool now (nothing is dropped silently)
+				onBest := map[types.TransactionID]bool{}
+				for _, pn := range tip.PathFromGenesis() {
+					for _, t := range pn.Block.Transactions {
+						onBest[t.ID()] = true
+					}
+					for _, t := range pn.Block.V2Transactions() {
+						onBest[t.ID()] = true
+					}
+				}
+				for i := range set2 {
+					if id := set2[i].ID(); !onBest[id] {
+						if _, ok := node.CM.V2PoolTransaction(id); !ok {
+							return fmt.Errorf("%s: the set was accepted, but its member %d (%v), which is not on the best chain, is not in the pool", where, i, id)
+						}
+					}
+				}
+				for i := range set1 {
+					if id := set1[i].ID(); !onBest[id] {
+						if _, ok := node.CM.PoolTransaction(id); !ok {
+							return fmt.Errorf("%s: the set was accepted, but its member %d (%v), which is not on the best chain, is not in the pool", where, i, id)
+						}
+					}
+				}
 				// track what the pool now reports for these ids (proofs at tip)
 				for i := range set1 {
 					id := set1[i].ID()
